@@ -43,6 +43,11 @@ def check_domain(ctx, e):
         mg = d1.merge(d2)
         if attrs(mg) != e["merge"] or not shape_ok(mg): bad.append("merge -> %s, spec %s" % (mg, e["merge"]))
         if list(d1.canonical(e["d2"])) != e["canonical_any"]: bad.append("canonical(d2 attrs) -> %s" % (d1.canonical(e["d2"]),))
+        # the library itself passes concatenated cliques (attributes named twice): canonical is a function of the SET
+        rep = tuple(e["d2"]) + tuple(e["d2"][:1]) + tuple(a for a in e["d1"] if a in e["d2"])
+        if list(d1.canonical(rep)) != e["canonical_any"]: bad.append("canonical(%r) -> %s, spec %s" % (rep, d1.canonical(rep), e["canonical_any"]))
+        rep2 = list(arg) + list(arg)
+        if list(d1.canonical(rep2)) != e["canonical"]: bad.append("canonical(%r) -> %s, spec %s" % (rep2, d1.canonical(rep2), e["canonical"]))
         if bool(d1.contains(d2)) != e["contains"]: bad.append("contains -> %s" % d1.contains(d2))
         if d1.size() != e["size"]: bad.append("size() -> %s, spec %s" % (d1.size(), e["size"]))
         if attrs(d1.sort("size")) != e["sort_size"]: bad.append("sort('size') -> %s, spec %s" % (d1.sort("size"), e["sort_size"]))
